@@ -10,6 +10,7 @@ import (
 	"io"
 	"strconv"
 	"strings"
+	"time"
 
 	chunker "github.com/ipfs/boxo/chunker"
 	dag "github.com/ipfs/boxo/ipld/merkledag"
@@ -18,6 +19,7 @@ import (
 	h "github.com/ipfs/boxo/ipld/unixfs/importer/helpers"
 	"github.com/ipfs/boxo/ipld/unixfs/importer/trickle"
 	uio "github.com/ipfs/boxo/ipld/unixfs/io"
+	"github.com/ipfs/boxo/files"
 	"github.com/ipfs/boxo/ipld/unixfs/mod"
 	ipld "github.com/ipfs/go-ipld-format"
 	mh "github.com/multiformats/go-multihash"
@@ -63,6 +65,10 @@ func (r *ref) resize(n int64) {
 }
 
 type session struct {
+	mode    uint32    // unix permission bits requested at import (0 = none)
+	mtime   time.Time // mtime requested at import (zero = none)
+	started time.Time
+	initial ipld.Node
 	ds   ipld.DAGService
 	dm   *mod.DagModifier
 	w    int
@@ -77,10 +83,27 @@ func (s *session) fail(sig, format string, a ...any) {
 		return
 	}
 	s.ref.broken = true
+	if strings.Contains(fmt.Sprintf(format, a...), "identity digest") {
+		sig = "identity-overflow" // a node got an identity CID above the 128 byte limit
+	}
 	s.o.Fail(sig, "op %d: %s", s.opNo, fmt.Sprintf(format, a...))
 }
 
-func buildInitial(ds ipld.DAGService, lay string, w int, raw bool, cidv int, hash string, chunks [][]byte) (ipld.Node, error) {
+// rootTimeLabel canonicalises the root's mtime: the one requested at import, or "R" for a refreshed one
+func (s *session) rootTimeLabel(t time.Time) string {
+	switch {
+	case t.IsZero():
+		return "-"
+	case t.Equal(s.mtime):
+		return ufsx.ShowTime(t)
+	}
+	if s.mtime.IsZero() || t.Before(s.started.Add(-time.Second)) {
+		s.fail("mtime-wrong", "root mtime became %s (requested %s)", ufsx.ShowTime(t), ufsx.ShowTime(s.mtime))
+	}
+	return "R"
+}
+
+func buildInitial(ds ipld.DAGService, lay string, w int, raw bool, cidv int, hash string, chunks [][]byte, mode uint32, mtime time.Time) (ipld.Node, error) {
 	prefix, _ := dag.PrefixForCidVersion(cidv)
 	switch hash {
 	case "blake":
@@ -88,7 +111,8 @@ func buildInitial(ds ipld.DAGService, lay string, w int, raw bool, cidv int, has
 	case "id":
 		prefix.MhType, prefix.MhLength = mh.IDENTITY, -1
 	}
-	params := h.DagBuilderParams{Maxlinks: w, RawLeaves: raw, CidBuilder: prefix, Dagserv: ds}
+	params := h.DagBuilderParams{Maxlinks: w, RawLeaves: raw, CidBuilder: prefix, Dagserv: ds,
+		FileMode: files.UnixPermsToModePerms(mode), FileModTime: mtime}
 	db, err := params.New(&ufsx.Scripted{Chunks: chunks})
 	if err != nil {
 		return nil, err
@@ -105,10 +129,24 @@ func exec(c vh.Case, o *vh.Out) {
 	ctx := context.Background()
 	for i, line := range c.Ops {
 		f := strings.Fields(line)
+		var mode uint32
+		var mtime time.Time
+		if f[0] == "initm" && len(f) >= 10 {
+			// initm <mode> <sec.ns|-> + the arguments of init: the file is imported with mode / mtime
+			mode = uint32(vh.Atoi(f[1]))
+			if f[2] != "-" {
+				p := strings.SplitN(f[2], ".", 2)
+				sec, _ := strconv.ParseInt(p[0], 10, 64)
+				ns, _ := strconv.ParseInt(p[1], 10, 64)
+				mtime = time.Unix(sec, ns)
+			}
+			f = append([]string{"init"}, f[3:]...)
+			o.Kind("with-attrs")
+		}
 		if f[0] == "init" && len(f) >= 8 {
-			s = &session{ds: mdtest.Mock(), w: vh.Atoi(f[2]), raw: f[3] == "1", o: o}
+			s = &session{ds: mdtest.Mock(), w: vh.Atoi(f[2]), raw: f[3] == "1", o: o, mode: mode, mtime: mtime, started: time.Now()}
 			chunks := ufsx.Chunks(f[8:])
-			root, err := buildInitial(s.ds, f[1], s.w, s.raw, vh.Atoi(f[4]), f[5], chunks)
+			root, err := buildInitial(s.ds, f[1], s.w, s.raw, vh.Atoi(f[4]), f[5], chunks, mode, mtime)
 			if err != nil {
 				o.Emit("error")
 				s = nil
@@ -124,9 +162,11 @@ func exec(c vh.Case, o *vh.Out) {
 			dm.RawLeaves = s.raw
 			mod.SetWriteBufferSizeForVerif(vh.Atoi(f[7]))
 			s.dm = dm
+			s.initial = root
 			s.ref.b = ufsx.Concat(chunks)
 			wk := ufsx.NewWalk(s.ds)
 			wk.CanonLeaf = true
+			wk.RootTimeLabel = s.rootTimeLabel
 			wk.Dump(root, 0)
 			o.Kind("init-" + f[1])
 			o.Kind(fmt.Sprintf("init-height%d", min(wk.Height, 3)))
@@ -156,6 +196,15 @@ func exec(c vh.Case, o *vh.Out) {
 				n, err = s.dm.WriteAt(data, off)
 			}
 			o.Kind(f[0])
+			if off < 0 {
+				// io.WriterAt: a negative offset is an error and changes nothing
+				o.Kind("negative-arg")
+				if err == nil {
+					s.fail("negative-offset-accepted", "WriteAt at %d accepted (n=%d)", off, n)
+				}
+				o.Emit("n=%d err=%s", n, errClass(err))
+				continue
+			}
 			if err != nil || n != len(data) {
 				s.fail(f[0]+"-error", "%s returned n=%d err=%v for %d bytes", f[0], n, err, len(data))
 			}
@@ -238,6 +287,14 @@ func exec(c vh.Case, o *vh.Out) {
 			size := int64(vh.Atoi(f[1]))
 			err := s.dm.Truncate(size)
 			o.Kind("trunc")
+			if size < 0 {
+				o.Kind("negative-arg")
+				if err == nil {
+					s.fail("negative-size-accepted", "Truncate(%d) accepted", size)
+				}
+				o.Emit("err=%s", errClass(err))
+				continue
+			}
 			if err != nil {
 				s.fail("trunc-error", "Truncate(%d): %v", size, err)
 			}
@@ -272,7 +329,13 @@ func exec(c vh.Case, o *vh.Out) {
 			}
 			wk := ufsx.NewWalk(s.ds)
 			wk.CanonLeaf = true
+			wk.RootTimeLabel = s.rootTimeLabel
 			rec, leaves := wk.Dump(nd, 0)
+			if gm, _, isRaw := ufsx.RootAttrs(nd); !isRaw && s.mode != 0 && gm != s.mode {
+				if _, _, wasRaw := ufsx.RootAttrs(s.initial); !wasRaw {
+					s.fail("mode-lost", "root mode %o, imported with %o", gm, s.mode)
+				}
+			}
 			o.Kind(fmt.Sprintf("height%d", min(wk.Height, 4)))
 			dr, err := uio.NewDagReader(ctx, nd, s.ds)
 			var got []byte
@@ -321,7 +384,9 @@ func gen(r *vh.Rand, tier string, n int, emit func(vh.Case)) {
 		case 1:
 			nch = 1
 		}
-		// identity-hash prefixes are not generated: see docs/notes/C10.md (finding identity-overflow)
+		if cidv == 1 && nch <= 1 && r.Chance(1, 3) {
+			hash = "id"
+		}
 		toks := make([]string, nch)
 		total := 0
 		for j := range toks {
@@ -332,7 +397,19 @@ func gen(r *vh.Rand, tier string, n int, emit func(vh.Case)) {
 			total += ln
 			toks[j] = vh.Hex(r.Bytes(ln))
 		}
-		c.Ops = append(c.Ops, strings.TrimSpace(fmt.Sprintf("init %s %d %d %d %s %d %d %s", lay, w, raw, cidv, hash, k, wbs, strings.Join(toks, " "))))
+		initOp := strings.TrimSpace(fmt.Sprintf("init %s %d %d %d %s %d %d %s", lay, w, raw, cidv, hash, k, wbs, strings.Join(toks, " ")))
+		if r.Chance(1, 4) {
+			// a file imported with mode and / or mtime: the modifier keeps the mode and refreshes the mtime in places
+			mode, mtime := 0, "-"
+			if r.Chance(2, 3) {
+				mode = vh.Pick(r, []int{0o644, 0o755})
+			}
+			if mode == 0 || r.Chance(2, 3) {
+				mtime = vh.Pick(r, []string{"1000.0", "1700000000.5"})
+			}
+			initOp = fmt.Sprintf("initm %d %s %s", mode, mtime, strings.TrimPrefix(initOp, "init "))
+		}
+		c.Ops = append(c.Ops, initOp)
 		size := total // rough running size, only to aim offsets
 		nops := r.Range(1, 20)
 		if tier == "thorough" {
@@ -380,6 +457,9 @@ func gen(r *vh.Rand, tier string, n int, emit func(vh.Case)) {
 				size += len(d) / 2
 			case 2, 3:
 				d, off := data(), offset()
+				if r.Chance(1, 25) {
+					off = -r.Range(1, 3)
+				}
 				c.Ops = append(c.Ops, fmt.Sprintf("writeat %d %s", off, d))
 				if off+len(d)/2 > size {
 					size = off + len(d)/2
@@ -411,6 +491,10 @@ func gen(r *vh.Rand, tier string, n int, emit func(vh.Case)) {
 				c.Ops = append(c.Ops, fmt.Sprintf("readfull %d", r.Intn(12)))
 			case 8:
 				t := offset()
+				if r.Chance(1, 25) {
+					c.Ops = append(c.Ops, fmt.Sprintf("trunc %d", -r.Range(1, 3)))
+					continue
+				}
 				c.Ops = append(c.Ops, fmt.Sprintf("trunc %d", t))
 				size = t
 			case 9:
